@@ -419,16 +419,22 @@ func (h *Header) SetExtension(id uint8, payload []byte) error { //nolint:gocogni
 		return nil
 	}
 
-	// No existing header extensions
-	h.Extension = true
+	// No existing header extensions: pick the profile that can carry this element.
+	var profile uint16
 
 	switch payloadLen := len(payload); {
-	case payloadLen <= 16:
-		h.ExtensionProfile = extensionProfileOneByte
-	case payloadLen > 16 && payloadLen < 256:
-		h.ExtensionProfile = extensionProfileTwoByte
+	case id >= 1 && id <= 14 && payloadLen >= 1 && payloadLen <= 16:
+		profile = extensionProfileOneByte
+	case id >= 1 && payloadLen < 256:
+		profile = extensionProfileTwoByte
+	case id < 1:
+		return fmt.Errorf("%w actual(%d)", errRFC8285TwoByteHeaderIDRange, id)
+	default:
+		return fmt.Errorf("%w actual(%d)", errRFC8285TwoByteHeaderSize, payloadLen)
 	}
 
+	h.Extension = true
+	h.ExtensionProfile = profile
 	h.Extensions = append(h.Extensions, Extension{id: id, payload: payload})
 
 	return nil
